@@ -68,7 +68,37 @@ out += ["", "%d runs of seeded changes against checks (a change seeded for C01 i
         "* `C10-parsigex-verify-workers` (entries beyond the fourth of a received set are never verified) was first reported only through translator T-vapi (no input): peer sets had at most three entries; the generator now sends sets of 6–8 validators with one bad entry at any position.",
         "* `C02-instance-io-recycled-with-stale-recv` made the admission driver block inside `handle` (a recycled receive buffer fuller than the driver knew): `handle` calls are now bounded (`qbftwire:handle_blocked`); the change itself is reported as a broken correspondence of the wrapper stream.",
         "* `C06-cancel-drops-sibling-waiters` made the dutydb driver crawl for 25 minutes (every blocked waiter waited out its time-out): all drivers now stop generating after 200 violations that are not known findings.",
+        "* `C11-bcast-dedup-mark-after-handover` (check-then-mark of the broadcast de-duplication no longer atomic) and `C11-r1p2p-envelope-checked-once` (only the first share of a round-1 message is checked for its addressing): new op `race` (two overlapping deliveries of one cast, the first held in the hand-over) with theorem `overlapping_no_duplicate_sender`; forged messages with exactly one mis-addressed entry at a later position with theorem `every_entry_validated`. The first change also showed that the search phase of the check was unbounded (25 minutes): it is now limited to the broken streams and to 6 minutes in the quick tier.",
+        "* `C20-reorg-epoch-floor-arithmetic` (the SSE listener computes the reorg epoch as `slot/spe - depth/spe`): the epoch handed to `InvalidateCache` was an input of the driver; the real `handleChainReorgEvent` is now driven (hook, op `sse`) with model `Model/SseReorg.lean`, theorems `Props/C20Sse.lean` and monitor `dutiescache:sse_reorg_epoch_wrong`.",
         ""]
+out += [
+ "### 9.2 Single-token mutation campaign (`bin/mutate.py`, `bin/remutate.py`)",
+ "",
+ "Besides the hand-made changes, one anchored source file per property was mutated mechanically (relational and logical operator",
+ "replacements, off-by-one constants, dropped `!`; one token per mutant, in a scratch worktree). A mutant was kept only if it",
+ "compiles, vets and **passes the existing tests of its package**; then the property's quick check was run against it. Of 67",
+ "such surviving mutants (12 files) 37 were reported by the check. The other 30 were examined one by one; none changes behaviour",
+ "the property speaks about:",
+ "",
+ "| file (property) | surviving | caught | not caught: why equivalent for the property |",
+ "|---|---|---|---|",
+ "| `core/bcast/bcast.go` (C01) | 4 | 2 | 2 × `newDelayFunc` (metrics delay) |",
+ "| `core/qbft/qbft.go` (C02) | 6 | 4 | token inside a `/* */` comment; `>`→`>=` between two ROUND-CHANGEs of one source and one round (same round: same result) |",
+ "| `core/consensus/qbft/qbft.go` (C05) | 8 | 4 | tracing span status, `LogRoundChange` wrapper, round-timeout log selector, compare callback of the alpha feature `chain_split_halt` |",
+ "| `core/dutydb/memory.go` (C06) | 1 | 1 | – |",
+ "| `core/parsigdb/memory.go` (C07) | 8 | 4 | which of two errors is remembered on an unreachable `MessageRoot` failure; `len==0 \\|\\| len<t` → `&&` (same result for t ≥ 1); warning log; exit metrics counter |",
+ "| `tbls/herumi.go` (C08) | 5 | 3 | `threshold <= 1` → `< 1` in both split functions (accepts t = 1, outside the property's 2 ≤ t) |",
+ "| `core/sigagg/sigagg.go` (C09) | 4 | 4 | – |",
+ "| `core/parsigex/parsigex.go` (C10) | 2 | 1 | tracing span only for proposer duties |",
+ "| `cluster/lock.go` (C12) | 5 | 1 | `threshold < 1` → `<= 1` (t = 1 locks are not created); reconstruct with t+1 instead of t shares (same key); two `\\|\\|`→`&&` in the \"no registration\" test whose other branch rejects the same files |",
+ "| `core/scheduler/scheduler.go` (C15) | 8 | 6 | warning log; builder-registration submission (not a duty). Five more survivors in the head-event functions led to the model extension `C15Head` and to D-17 and are caught now |",
+ "| `app/eth2wrap/eth2wrap.go` (C19) | 8 | 2 | error wrapping text, latency/best-address metrics, reset period of a counter |",
+ "| `app/eth2wrap/cache.go` (C20) | 8 | 5 | debug log branches, `cacheUsed` metric |",
+ "",
+ "For the other files tried (`core/aggsigdb/memory_v2.go`, `dkg/bcast/server.go`, `core/deadline.go`) every mutant attempted was",
+ "already killed by the package's own tests. The first run of the campaign also exposed that a check could spend 25 minutes in its",
+ "search phase (recorded as a miss by the campaign's time-out): the phase is bounded now, the affected mutants were re-run.",
+ ""]
 txt = "\n".join(out)
 p = '/verif/DESIGN.md'
 s = open(p).read()
